@@ -93,6 +93,24 @@ def main():
       "* The hand-written model as a faithful transcription of the Rust code — validated on every run by the correspondence check and bounded by its generators (rules and measured tag histograms in the evidence files). Modelled, not verified: noodles (VCF/BCF/BGZF), flate2, clap, nom's combinator semantics (re-stated in `Model/Npy.lean`), indexmap insertion order (`indexMapOfList`), `core::fmt` `{:.p}` (`fmtFixed`) and `f64::from_str` (`parseF64`) — both compared value by value on every C07 run —, `std::io` default methods (`IoModel`), glibc `exp`/`ln`/`sqrt` and IEEE-754 arithmetic (compared within 2^-30 relative in exact rationals, never proved), numpy as the npy oracle.",
       "* The Rust harness (`harness/`), the driver's protocol decoding (`Driver/*.lean`), the python orchestration (`lib/runner.py`), and the `verif` hooks in /repo (commit 20240c9: three add-only wrappers).",
       "* Theorems about scalars are over any field of characteristic zero (C06's published estimators: any linearly ordered field) with Lean's convention x/0 = 0; where the binary64 code would return NaN / ±inf the theorems say nothing and the correspondence compares classes.", ""]
+    # section 16: coverage of the correspondence runs
+    covs = sorted(glob.glob(os.path.join(VERIF, "coverage", "C*.json")))
+    if covs:
+        out += ["---------------------------------------------------------------------------------------------", "",
+          "## 16. How much of the code the correspondence runs execute", "",
+          "`tools/coverage.sh` builds the harness and the `sfs` binary with `-C instrument-coverage` (nightly toolchain, offline) and runs each property's quick generator once; in-process calls and every spawned `sfs` process write profiles, which are merged per property (`coverage/Cxx.json`). This is not part of the registered checks; it measures generator quality: a transcribed function the correspondence never executes would be validated by nothing.", "",
+          "| property | cases | lines of /repo executed |", "|---|---|---|"]
+        files = {}
+        for f in covs:
+            d = json.load(open(f))
+            out.append(f"| {d['property']} | {d['cases']} | {d['lines_covered']} / {d['lines']} |")
+            for x in d["files"]:
+                e = files.setdefault(x["file"], {"lines": x["lines"], "best": 0, "by": ""})
+                if x["lines_covered"] > e["best"]: e["best"] = x["lines_covered"]; e["by"] = d["property"]
+        out += ["", "Per source file, the best single property run (lines executed / lines with code):", "", "| file | lines | best run |", "|---|---|---|"]
+        for k, v in sorted(files.items()):
+            out.append(f"| {k} | {v['best']} / {v['lines']} ({100 * v['best'] // max(1, v['lines'])}%) | {v['by']} |")
+        out += ["", "Not executed by any run: logging set-up and `--help` paths in `cli/src/main.rs`, `Display`/`Debug` impls and error-message formatting, the `x < 0.5` branch of `ln_gamma` (unreachable from the callers), `FayWu` (dead code), file-path variants of readers that the harness drives through stdin.", ""]
     open(path, "w").write(s + "\n".join(out) + "\n")
     print("DESIGN.md sections 11-15 regenerated")
 
